@@ -98,16 +98,23 @@ type Query {
   fs(a: Sx%s): Sx%s
   fe(a: E%s): E%s
   fi(a: In%s): Sx%s
+  fd(a: Sx = "v"%s): Sx%s
   o: T
   other(a: E2): E2
 }
 """ % (tags("ts", c["s"]), tags("te", c["e"]), tags("tv", c["v"]), tags("tio", c["io"]), tags("tif", c["if"]), tags("to", c["o"]),
        tags("to", c["o"]), tags("tf", c["f"]), tags("to", c["o"]), tags("tf", c["f"]),
-       tags("ta", c["a"]), tags("tf", c["f"]), tags("ta", c["a"]), tags("tf", c["f"]), tags("ta", c["a"]), tags("tf", c["f"]))
+       tags("ta", c["a"]), tags("tf", c["f"]), tags("ta", c["a"]), tags("tf", c["f"]), tags("ta", c["a"]), tags("tf", c["f"]),
+       tags("ta", c["a"]), tags("tf", c["f"]))
         self.sdl = sdl
 
         @t.Resolver("Query.fs", schema_name=self.sn)
         async def fs(p, a, ctx, i):
+            w.args_seen.append(a.get("a"))
+            return a.get("a")
+
+        @t.Resolver("Query.fd", schema_name=self.sn)
+        async def fd(p, a, ctx, i):
             w.args_seen.append(a.get("a"))
             return a.get("a")
 
@@ -148,6 +155,8 @@ type Query {
             "objvar": ("query ($x: In) { fi(a: $x)%s }" % q, {"x": {"f": "v", "e": "X"}}, "fi"),
             "objnested": ("query ($x: Sx) { fi(a: {f: $x, e: X})%s }" % q, {"x": "v"}, "fi"),
             "object": ("{ o { s } }", None, "o"),
+            # the argument left out: its schema default goes through the same hooks as the literal "v"
+            "default": ("{ fd%s }" % q, None, "fd"),
         }
 
     def run_merged(self):
@@ -192,7 +201,7 @@ def job(j):
     def one_world(rec, hetero):
         c = rec["cfg"]
         w = DirWorld(c, hetero)
-        for kind, exp in rec["expect"].items():
+        for kind, exp in list(rec["expect"].items()) + [("default", rec["expect"]["lit"])]:
             st["n"] += 1
             resp, field = w.run(kind)
             mm = []
